@@ -10,6 +10,9 @@
                                                 handleWatchEvent       -> [handle]
                                                 shouldFireEvent        -> [should_fire]
                                                 cachedObjects          -> [cache]
+                                                loadExistedObjects     -> [load_existed]
+     pkg/kube_events_manager/factory.go         FactoryStore.Start     -> [start_replay] (what the shared
+                                                                          informer delivers when it is started / joined)
                                                 handleWatchEvent's head: tombstone unwrap + type assertion
                                                                        -> [delivery], [unwrap], [handle_d]
      k8s.io/client-go/tools/cache (v0.30.11, the environment: what calls the handlers)
@@ -198,7 +201,42 @@ Section WithOracle.
   Definition final_cache_d (cfg : config) (c : cache) (h : list dstep) : cache :=
     fold_left (fun c s => match s with (t, id, d) => fst (handle_d cfg c t id d) end) h c.
 
+  (* resourceInformer.loadExistedObjects (called by createSharedInformer when the monitor is
+     created, BEFORE the shared informer is started): a direct
+       KubeClient.Dynamic().Resource(gvr).Namespace(ns).List(ListOptions)
+     and for every item, in list order,
+       objFilterRes, err = applyFilter(JqFilter, ..., &obj); if err != nil { return err }
+       filteredObjects[resourceId] = objFilterRes
+     then every binding of filteredObjects is written into cachedObjects.  No event is fired:
+     these objects are the Synchronization snapshot.  [listed] = (resource id, object AS THE
+     LIST RETURNED IT); None = the error return (CreateInformers fails, cache untouched). *)
+  Fixpoint load_existed (cfg : config) (listed : list (N * json)) (c : cache) : option cache :=
+    match listed with
+    | [] => Some c
+    | (id, o) :: r =>
+        match apply_filter cfg o with
+        | None => None
+        | Some e => load_existed cfg r (c_set id e c)
+        end
+    end.
+
 End WithOracle.
+
+(* ---- the environment: what the START of the shared informer delivers ----
+   resourceInformer.start -> FactoryStore.Start (factory.go): the handler is registered with
+   the factory's shared informer (AddEventHandler) and, unless it runs already, the informer
+   is started.  Either way client-go calls OnAdd(obj, isInInitialList = true) once for every
+   object the shared informer knows:
+     - a fresh informer: the reflector's initial list -> DeltaFIFO.Replace on an empty store
+       -> one Replaced/Sync delta per item -> processDeltas -> OnAdd;
+     - an informer that runs already (a second binding with the same FactoryIndex joins it):
+       sharedIndexInformer.AddEventHandler -> addNotification for every item of the indexer.
+   The handler's argument is the object AS THE SHARED INFORMER DELIVERS IT - after whatever
+   the informer does to objects on their way into its store -; [delivered] lists these
+   arguments in delivery order.  handleWatchEvent computes projection and checksum over that
+   argument, loadExistedObjects over the item of its own List. *)
+Definition start_replay (delivered : list (N * json)) : list dstep :=
+  map (fun io => (Added, fst io, Plain (snd io))) delivered.
 
 (* ---- the environment: what a RELIST delivers ----
    After a broken watch that cannot be resumed the reflector lists again and calls
